@@ -500,6 +500,8 @@ def replica_family(W):
 
 
 ENVELOPES = ("post", "head", "preflight", "xhr", "proxied", "peers", "peersEmpty", "http", "port443")
+# envelopes added later; kept out of the sampled families so that what those contain does not shift
+ENVELOPES_LATER = ("port8443",)
 
 
 def envelope_family(W, base, n):
@@ -535,6 +537,21 @@ def envelope_cross(W, base):
     return out
 
 
+def other_port_family(W):
+    """Compliant logins with the application asked for on another port than the callback's: the login comes back to exactly
+    the URL first requested, port included."""
+    out = []
+    for sc in [x for x in family(W, "C03", "quick") if x["id"].endswith("/u1") or "/none/" in x["id"]]:
+        v = json.loads(json.dumps(sc))
+        v["id"] = sc["id"] + "/env-port8443"
+        v["cfg"]["env"] = "port8443"
+        v["tags"] = list(v.get("tags", [])) + ["envelope"]
+        for st in v["steps"]:
+            st.pop("expect", None)
+        out.append(v)
+    return out
+
+
 def envelope_late(W, base):
     """Every scenario of `base` with the login made by plain navigations and every LATER request of the scenario (the single
     checks that follow) under an envelope - each envelope in turn: a page's scripts, forms and proxies come after the login."""
@@ -542,7 +559,7 @@ def envelope_late(W, base):
     for sc in base:
         if not any(st.get("op") == "browse" for st in sc["steps"]):
             continue
-        for e2 in ENVELOPES:
+        for e2 in ENVELOPES + ENVELOPES_LATER:
             v = json.loads(json.dumps(sc))
             v["id"] = "%s/late-%s" % (sc["id"], e2)
             for st in v["steps"]:
@@ -1054,7 +1071,7 @@ def c03(W, replay=None):
         bad = cfg_text("BSpec", dict(consts, NoExpiresInMeansExpired="TRUE"), ["OnePass", "NotStuck"], extra="PROPERTY LoginEnds\n")
         out, viol = W.tlc_exhaustive("AuthFlowBrowser", bad, "c03-design-defect", workers=4, timeout=1200, expect_violation=True)
         log("[design] with 'no expires_in means expired' the browser model %s OnePass / LoginEnds" % ("VIOLATES" if viol else "satisfies"))
-    scen = [] if replay else family(W, "C03") + same_client_family(W) + [x for x in discovery_family(W) if "pkce" not in x["id"] and "noMethods" not in x["id"]] + env_std(W) + debug_family(W)
+    scen = [] if replay else family(W, "C03") + same_client_family(W) + [x for x in discovery_family(W) if "pkce" not in x["id"] and "noMethods" not in x["id"]] + env_std(W) + debug_family(W) + other_port_family(W)
     return sys_pipeline("C03", W, scen, None, ASSUME_SYS + ["callback and logout paths satisfy the trigger rules (documented precondition)",
                                                          "the browser follows every 302 and keeps cookies per RFC 6265 user-agent parsing"], replay=replay)
 
@@ -1200,7 +1217,7 @@ def c13_histories(W):
 def c13(W, replay=None):
     W.build()
     # (the C05 family brings the histories: a login abandoned half-way, a stale or foreign cookie, then a login that completes)
-    scen = [] if replay else family(W, "C13") + discovery_family(W) + parallel_family(W, 200 if W.tier == "thorough" else 20) + c13_histories(W) + family(W, "C05", "quick") + env_std(W) + debug_family(W)
+    scen = [] if replay else family(W, "C13") + discovery_family(W) + parallel_family(W, 200 if W.tier == "thorough" else 20) + c13_histories(W) + family(W, "C05", "quick") + env_std(W) + debug_family(W) + other_port_family(W)
     return sys_pipeline("C13", W, scen, None, ASSUME_SYS + ["Location values are parsed with net/url, independently of how the service assembled them"], replay=replay)
 
 
